@@ -1,1 +1,184 @@
-//! Rule tables for C12 (filled in below; see DESIGN.md Appendix A).
+//! Rule tables for C12 (DESIGN.md Appendix A): what RFC 9114 / draft-ietf-webtrans-http3 prescribe for a
+//! frame arriving on a stream of a given role, as a total function. `Unspecified` cells are never checked.
+
+/// the frame-reading stream roles of the library
+#[derive(Clone, Copy, Debug, PartialEq, Eq, Hash)]
+pub enum Role {
+    /// peer-initiated bidirectional stream (request stream at a server)
+    BiRemote,
+    /// locally initiated bidirectional stream (reading the peer's direction)
+    BiLocal,
+    /// peer's control stream (after its type byte)
+    Control,
+    /// established session (CONNECT) stream
+    Session,
+}
+
+pub const ALL_ROLES: [Role; 4] = [Role::BiRemote, Role::BiLocal, Role::Control, Role::Session];
+
+/// alphabet of stream events
+#[derive(Clone, Copy, Debug, PartialEq, Eq, Hash)]
+pub enum Ev {
+    Data0,
+    DataN,
+    Headers,
+    Settings,
+    WtValid0,
+    WtValid4,
+    WtInvalid(u8),
+    Grease,
+    /// unassigned (non-GREASE, non-H2-reserved) frame type
+    Unknown,
+    /// declared payload of 4097 bytes on a DATA frame
+    Oversize,
+    /// end of stream exactly at a frame boundary
+    FinBoundary,
+    /// end of stream inside a frame header
+    FinInHeader,
+    /// end of stream inside a frame payload
+    FinInPayload,
+}
+
+pub const ALPHABET: [Ev; 15] = [
+    Ev::Data0,
+    Ev::DataN,
+    Ev::Headers,
+    Ev::Settings,
+    Ev::WtValid0,
+    Ev::WtValid4,
+    Ev::WtInvalid(1),
+    Ev::WtInvalid(2),
+    Ev::WtInvalid(3),
+    Ev::Grease,
+    Ev::Unknown,
+    Ev::Oversize,
+    Ev::FinBoundary,
+    Ev::FinInHeader,
+    Ev::FinInPayload,
+];
+
+impl Ev {
+    pub fn is_fin(self) -> bool {
+        matches!(self, Ev::FinBoundary | Ev::FinInHeader | Ev::FinInPayload)
+    }
+    /// wire bytes of the event (FIN events contribute the truncated bytes that precede the FIN)
+    pub fn bytes(self) -> Vec<u8> {
+        match self {
+            Ev::Data0 => crate::frame_encode(0x00, &[]),
+            Ev::DataN => crate::frame_encode(0x00, b"payload"),
+            Ev::Headers => crate::frame_encode(0x01, &[0x00, 0x00]),
+            Ev::Settings => crate::frame_encode(0x04, &crate::settings_payload(&[(0x33, 1)])),
+            Ev::WtValid0 => crate::wt_signal_encode(0),
+            Ev::WtValid4 => crate::wt_signal_encode(4),
+            Ev::WtInvalid(k) => crate::wt_signal_encode(k as u64),
+            Ev::Grease => crate::frame_encode(0x21 + 0x1f * 2, &[1, 2]),
+            Ev::Unknown => crate::frame_encode(0x3f, &[0x04, 0x00]),
+            Ev::Oversize => crate::frame_encode_declared(0x00, 4097, &[0; 4]),
+            Ev::FinBoundary => vec![],
+            // first byte of a two-byte varint type
+            Ev::FinInHeader => vec![0x40],
+            Ev::FinInPayload => crate::frame_encode_declared(0x00, 9, &[1, 2, 3]),
+        }
+    }
+}
+
+/// machine state (what the rules can depend on)
+#[derive(Clone, Copy, Debug, PartialEq, Eq, Hash)]
+pub struct St {
+    /// a frame other than an unknown (skipped) one has been seen
+    pub first_done: bool,
+    /// a GREASE or unknown frame preceded everything else (makes "first" debatable)
+    pub only_noise_so_far: bool,
+    pub dead: bool,
+}
+
+pub const START: St = St { first_done: false, only_noise_so_far: true, dead: false };
+
+/// prescribed reaction at the typestate level
+#[derive(Clone, Debug, PartialEq, Eq)]
+pub enum Want {
+    /// the frame is handed to the caller
+    Accept,
+    /// invisible: skipped whole, nothing handed to the caller
+    Skip,
+    /// an error with one of these HTTP/3 codes (numeric registry values)
+    Error(Vec<u64>),
+    /// clean end of stream
+    EndClean,
+    /// end of stream inside a frame: asynchronous readers report H3_FRAME_ERROR (or plain partial EOF), synchronous readers ask for more
+    EndTruncated,
+    Unspecified,
+}
+
+use crate::reg::*;
+
+pub fn step(role: Role, st: St, ev: Ev) -> (Want, St) {
+    if st.dead {
+        return (Want::Unspecified, st);
+    }
+    let seen = |st: St, noise: bool| St { first_done: true, only_noise_so_far: st.only_noise_so_far && noise, dead: false };
+    let dead = St { dead: true, ..st };
+    match ev {
+        Ev::FinBoundary => (Want::EndClean, dead),
+        Ev::FinInHeader | Ev::FinInPayload => (Want::EndTruncated, dead),
+        Ev::Oversize => (Want::Error(vec![H3_EXCESSIVE_LOAD]), dead),
+        // skipped before any rule applies; does not count as a frame
+        Ev::Unknown => (Want::Skip, St { only_noise_so_far: st.only_noise_so_far, ..st }),
+        Ev::Grease => (Want::Accept, seen(st, true)),
+        Ev::Data0 | Ev::DataN | Ev::Headers => match role {
+            Role::Control => (Want::Error(vec![H3_FRAME_UNEXPECTED, H3_MISSING_SETTINGS]), dead),
+            _ => (Want::Accept, seen(st, false)),
+        },
+        Ev::Settings => match role {
+            Role::Control => (Want::Accept, seen(st, false)),
+            _ => (Want::Error(vec![H3_FRAME_UNEXPECTED]), dead),
+        },
+        Ev::WtValid0 | Ev::WtValid4 => match role {
+            Role::BiRemote => {
+                if !st.first_done {
+                    // preceded by nothing, or by skipped unknown frames only
+                    if st.only_noise_so_far && st == START {
+                        (Want::Accept, seen(st, false))
+                    } else {
+                        (Want::Unspecified, dead)
+                    }
+                } else if st.only_noise_so_far {
+                    // after GREASE frames only: the draft's "first bytes of the stream" wording is open to both readings
+                    (Want::Unspecified, dead)
+                } else {
+                    (Want::Error(vec![H3_FRAME_ERROR]), dead)
+                }
+            }
+            Role::Control => (Want::Error(vec![H3_FRAME_UNEXPECTED, H3_MISSING_SETTINGS]), dead),
+            // the peer may not send the signal on a stream we opened / on the session stream: some error
+            _ => (Want::Error(vec![H3_FRAME_UNEXPECTED, H3_FRAME_ERROR]), dead),
+        },
+        Ev::WtInvalid(_) => match role {
+            Role::BiRemote if !st.first_done => (Want::Error(vec![H3_ID_ERROR]), dead),
+            // elsewhere the signal itself is already illegal: either complaint is acceptable
+            _ => (Want::Error(vec![H3_ID_ERROR, H3_FRAME_UNEXPECTED, H3_FRAME_ERROR, H3_MISSING_SETTINGS]), dead),
+        },
+    }
+}
+
+/// numeric code of an error name as printed by the library's `ErrorCode` Display
+pub fn code_of_name(name: &str) -> Option<u64> {
+    Some(match name {
+        "DatagramError" => H3_DATAGRAM_ERROR,
+        "NoError" => H3_NO_ERROR,
+        "StreamCreationError" => H3_STREAM_CREATION_ERROR,
+        "ClosedCriticalStreamError" => H3_CLOSED_CRITICAL_STREAM,
+        "FrameUnexpectedError" => H3_FRAME_UNEXPECTED,
+        "FrameError" => H3_FRAME_ERROR,
+        "ExcessiveLoad" => H3_EXCESSIVE_LOAD,
+        "IdError" => H3_ID_ERROR,
+        "SettingsError" => H3_SETTINGS_ERROR,
+        "MissingSettingsError" => H3_MISSING_SETTINGS,
+        "RequestRejectedError" => H3_REQUEST_REJECTED,
+        "MessageError" => H3_MESSAGE_ERROR,
+        "DecompressionError" => QPACK_DECOMPRESSION_FAILED,
+        "BufferedStreamRejected" => WEBTRANSPORT_BUFFERED_STREAM_REJECTED,
+        "SessionGone" => WEBTRANSPORT_SESSION_GONE,
+        _ => return None,
+    })
+}
